@@ -102,8 +102,14 @@ fn parse_trailer(src: &TrailerBuf) -> io::Result<(u32, usize)> {
 
 pub(crate) fn parse_block(src: &[u8], block: &mut Block) -> io::Result<()> {
     let (block_size, cdata, crc32, isize) = parse_frame(src)?;
+    let (prev_size, prev_len) = (block.size(), block.data().len());
     block_initialize(block, block_size, isize);
-    inflate(cdata, crc32, block.data_mut().as_mut())?;
+
+    if let Err(e) = inflate(cdata, crc32, block.data_mut().as_mut()) {
+        block_invalidate(block, prev_size, prev_len);
+        return Err(e);
+    }
+
     Ok(())
 }
 
@@ -113,10 +119,26 @@ pub(super) fn parse_block_into_buf(
     buf: &mut [u8],
 ) -> io::Result<()> {
     let (block_size, cdata, crc32, isize) = parse_frame(src)?;
+    let (prev_size, prev_len) = (block.size(), block.data().len());
     block_initialize(block, block_size, isize);
     block.data_mut().set_position(isize);
-    inflate(cdata, crc32, &mut buf[..isize])?;
+
+    if let Err(e) = inflate(cdata, crc32, &mut buf[..isize]) {
+        block_invalidate(block, prev_size, prev_len);
+        return Err(e);
+    }
+
     Ok(())
+}
+
+// The block data failed to inflate or verify. The buffer of the previous block is overwritten, so
+// leave the previous block exhausted rather than the failed block readable.
+fn block_invalidate(block: &mut Block, prev_size: u64, prev_len: usize) {
+    block.set_size(prev_size);
+
+    let data = block.data_mut();
+    data.resize(prev_len);
+    data.set_position(prev_len);
 }
 
 fn parse_frame(src: &[u8]) -> io::Result<(u64, &[u8], u32, usize)> {
